@@ -145,7 +145,17 @@ pub fn page(cx: &Cx, w: u32, h: u32) -> Page<'static> {
 pub fn pages(cx: &Cx, t: SignType, max: u64) -> Vec<Page<'static>> {
     let (w, h) = t.dimensions();
     let n = cx.draw(max + 1);
-    (0..n).map(|_| page(cx, w, h)).collect()
+    let mut out: Vec<Page<'static>> = Vec::new();
+    for _ in 0..n {
+        // now and then the same page twice in a row, byte for byte (same id, same pixels)
+        if !out.is_empty() && cx.chance(1, 6) {
+            let last = out.last().unwrap().clone();
+            out.push(last);
+        } else {
+            out.push(page(cx, w, h));
+        }
+    }
+    out
 }
 
 pub fn data(bytes: Vec<u8>) -> Data<'static> {
